@@ -152,6 +152,16 @@ func c04Script(d c04Desc) *Script {
 			for i := range doc {
 				doc[i] = byte('1' + rng.Intn(9))
 			}
+			structured := rng.Intn(2) == 0
+			if structured {
+				// an object or array that is complete before the message is: trailing white space follows
+				if rng.Bool() {
+					doc = []byte(`{"k":` + string(doc) + `}`)
+				} else {
+					doc = []byte(`[` + string(doc) + `,0]`)
+				}
+				doc = append(doc, "   \n"...)
+			}
 			payload := doc
 			compressed := d.Params.Deflate && rng.Bool()
 			if compressed {
@@ -163,6 +173,9 @@ func c04Script(d c04Desc) *Script {
 				c := len(payload) - off
 				if i < nf-1 {
 					c = rng.Intn(c + 1)
+					if structured && !compressed && i == 0 && rng.Bool() {
+						c = len(doc) - 4 // the first fragment ends exactly where the value does
+					}
 				}
 				f := wire.Frame{Fin: i == nf-1, Op: wire.OpCont, Payload: payload[off : off+c], LenForm: -1}
 				if i == 0 {
@@ -360,16 +373,16 @@ func c04Cut(r *fw.R, d c04Desc, s *Script, stream []byte, k int, fk xport.FaultK
 			r.Violate("C04/netconn-complete-message-lost/"+pos, fmt.Sprintf("%s: %d bytes of complete messages precede the cut, only %d were delivered before: %v", ctxKey, len(complete), len(got), rerr), witness())
 		}
 	case d.Reader == "wsjson":
-		var got []json.Number
+		var got []string
 		var rerr error
 		for {
-			var v json.Number
+			var v json.RawMessage
 			err := wsjson.Read(ctx, c, &v)
 			if err != nil {
 				rerr = err
 				break
 			}
-			got = append(got, v)
+			got = append(got, strings.TrimSpace(string(v)))
 		}
 		_ = rerr
 		if len(got) > len(want) {
@@ -377,7 +390,7 @@ func c04Cut(r *fw.R, d c04Desc, s *Script, stream []byte, k int, fk xport.FaultK
 			return
 		}
 		for i := range got {
-			if string(got[i]) != string(want[i].Data) {
+			if got[i] != strings.TrimSpace(string(want[i].Data)) {
 				r.Violate("C04/wsjson-value-differs/"+pos, fmt.Sprintf("%s: document %d read as %q, sent %q", ctxKey, i, got[i], want[i].Data), witness())
 				return
 			}
